@@ -511,6 +511,26 @@ def c04(res, ctx):
 def c17(res, ctx):
     return generic('pgn', 'gen_pgn', 'Lichess-layout files (1-6 games, castling tokens, comments, every result token, with/without trailing newline) x chunk sizes {1,2,3,5,7,64,8192,..} x random read fragmentations, plus malformed files')(res, ctx)
 
+def c15(res, ctx):
+    import gen_uci
+    rng = random.Random(res.seed)
+    cases = V.corpus('uciparse') + gen_uci.gen(rng, res.tier)
+    impl, model = diff(res, 'uciparse', cases, nontrivial=getattr(gen_uci, 'nontrivial', None))
+    rel = V.run_impl('uciparse', cases, release=True)
+    mv = V.corpus('ucimove') + gen_uci.gen_moves(rng, res.tier)
+    impl2, model2 = diff(res, 'ucimove', mv)
+    rel2 = V.run_impl('ucimove', mv, release=True)
+    k = 0
+    for fam, cs, a, b in (('uciparse', cases, impl, rel), ('ucimove', mv, impl2, rel2)):
+        for c, x, y in zip(cs, a, b):
+            if x == 'PANIC' or y == 'PANIC':
+                if k < MAXREP: res.violation(fam, c, 'Ok or Err', 'PANIC', 'property', 'the UCI reader panicked (%s build)' % ('debug' if x == 'PANIC' else 'release'))
+                k += 1
+            elif x != y:
+                if k < MAXREP: res.violation(fam, c, x, y, 'debug vs release', 'debug and release builds parse differently')
+                k += 1
+    return dict(rule='command lines rendered from random commands with random layouts (every go parameter subset and order), token-level mutations, case changes, White_Space and non-ASCII characters, random strings; all 64x64x7 move texts in thorough; debug and release builds')
+
 def c19(res, ctx):
     out = generic('lichess', 'gen_lichess', 'documents generated from the documented API shapes (every variant, sampled subsets of optional fields, all enumerated keys, move lists of 0-400 tokens, JSON escapes, unknown extra fields, shuffled order, null optionals) plus a malformed stream')(res, ctx)
     if not ctx.get('coq_ok', True) or True:
@@ -530,12 +550,42 @@ def c10_full(res, ctx):
     engine_props.c10_engine(res)
     return out
 
-CHECKS = {'C19': c19, 'C04': c04, 'C07': _engine('c07'), 'C08': _engine('c08'), 'C09': _engine('c09'), 'C11': _engine('c11'), 'C16': _engine('c16'), 'C17': c17, 'C01': c01, 'C02': c02, 'C03': c03, 'C05': c05, 'C06': c06, 'C10': c10_full, 'C12': c12, 'C13': c13, 'C18': c18}
+CHECKS = {'C15': c15, 'C19': c19, 'C04': c04, 'C07': _engine('c07'), 'C08': _engine('c08'), 'C09': _engine('c09'), 'C11': _engine('c11'), 'C16': _engine('c16'), 'C17': c17, 'C01': c01, 'C02': c02, 'C03': c03, 'C05': c05, 'C06': c06, 'C10': c10_full, 'C12': c12, 'C13': c13, 'C18': c18}
 
 ASSUME = {
     'C18': ['std HashMap/VecDeque behave as a map and a queue'],
     'C10': ['64-bit Zobrist keys identify positions (no collision among the positions of one game/line)', 'hypotheses parity_ok / no_dist2 on the key sequence (chess facts, not proved)'],
 }
+
+def find_bad(pid, res):
+    """A regenerated proof obligation broke: look for a concrete property-level input that fails on the implementation."""
+    dump = os.path.join(V.BUILD, 'tables.dump')
+    if pid == 'C06':
+        rc, out = V.sh(['python3', os.path.join(V.ROOT, 'checks', 'c06_find_bad.py'), dump])
+        line = out.strip().split('\n')[-1] if out.strip() else 'null'
+        if line != 'null':
+            w = json.loads(line)
+            fens = [w.get(k) for k in ('fen1', 'fen2') if w.get(k)] or w.get('fens') or []
+            note = w.get('reason', 'zobrist key tables violate keys_ok')
+            if len(fens) == 2 and w.get('well_formed', True):
+                hs = hashes(fens)
+                if hs[0] and hs[0] == hs[1]:
+                    res.violation('zobrist-single', fens[0] + '\t' + fens[1], 'different hashes', hs[0], 'property', note + ' (confirmed on the implementation)')
+                    return
+            res.violation('zobrist-keys', json.dumps(w)[:1500], None, None, 'coq', note)
+    if pid == 'C19':
+        rc, out = V.sh(['python3', os.path.join(V.ROOT, 'checks', 'c19_find_bad.py'), '--repo', V.REPO])
+        line = out.strip().split('\n')[-1] if out.strip() else 'null'
+        if line != 'null':
+            from common import esc
+            w = json.loads(line)
+            wit = w.get('witness') or {}
+            case = '%s\t%s' % (wit.get('kind', 'game'), esc(wit.get('text', '')))
+            obs = V.run_impl('lichess', [case])[0]
+            res.violation('lichess', case, 'the documented field %s is decoded' % '.'.join(w.get('path', [])), obs, 'spec', w.get('reason', 'documented shape not decodable'))
+    if pid == 'C10':
+        rc, out = V.sh("grep -n 'MAX_HALF_MOVES' %s" % os.path.join(V.REPO, 'engine_core/src/engine/heuristic.rs'))
+        res.notes.append('MAX_HALF_MOVES in source: ' + out.strip()[:200])
 
 def run_check(pid, tier, seed):
     res = V.Result(pid, tier, seed)
@@ -553,6 +603,11 @@ def run_check(pid, tier, seed):
         extra = CHECKS[pid](res, {'coq_ok': coq_ok}) or {}
     except V.BuildError as e:
         res.violation('run', None, None, None, 'build', 'family run failed at %s: %s' % (e.stage, e.log[-1500:]), suffix='no-failing-input-found')
+    if proofs['errors'] and not res.violations:
+        try:
+            find_bad(pid, res)
+        except Exception as e:
+            res.notes.append('find_bad failed: %r' % (e,))
     if proofs['errors'] and not res.violations:
         res.violation('proof', None, None, None, 'coq', 'proof obligation(s) of %s no longer check: %s' % (pid, ' ; '.join(proofs['errors'])[:3000]), suffix='no-failing-input-found')
     elif proofs['errors']:
